@@ -473,6 +473,138 @@ let suite_vfn (line : string) : string =
       Printf.sprintf "%s %s | none" id out
   | _ -> failwith "bad vfn case"
 
+(* ---------- suite: dbhist (specification of the API) ---------- *)
+let parse_wops (body : string) : wop list =
+  List.map
+    (fun el ->
+      match String.index_opt el '=' with
+      | Some i -> WPut (parse_bytes (String.sub el 0 i), parse_bytes (String.sub el (i + 1) (String.length el - i - 1)))
+      | None -> WDel (parse_bytes el))
+    (split_nonempty ';' body)
+
+let name_id (s : string) : n =
+  (* iterator names are small tokens: hash them to a number *)
+  let h = ref 7 in
+  String.iter (fun c -> h := (!h * 131 + Char.code c) land 0xFFFFFF) s;
+  n_of_int !h
+
+let parse_hop (tok : string) : hop =
+  let body = String.sub tok 1 (String.length tok - 1) in
+  let split1 c s = let i = String.index s c in (String.sub s 0 i, String.sub s (i + 1) (String.length s - i - 1)) in
+  match tok.[0] with
+  | 'P' -> let k, v = split1 '=' body in HWrite [ WPut (parse_bytes k, parse_bytes v) ]
+  | 'D' -> HWrite [ WDel (parse_bytes body) ]
+  | 'B' -> HWrite (parse_wops body)
+  | 'G' -> HGet (parse_bytes body)
+  | 'S' -> HSnap
+  | 'R' -> HRelease (nat_of_int (int_of_string body))
+  | 'H' -> let i, k = split1 ':' body in HGetAt (nat_of_int (int_of_string i), parse_bytes k)
+  | 'J' -> let nm, sn = split1 ':' body in
+      HIterNew (name_id nm, if sn = "-" then None else Some (nat_of_int (int_of_string sn)))
+  | 'K' -> let nm, ops = split1 ':' body in
+      HIterOps (name_id nm,
+        List.map (fun o -> match o.[0] with
+          | 'f' -> IFirst | 'l' -> ILast | 'n' -> INext | 'p' -> IPrev
+          | 's' -> ISeek (parse_bytes (String.sub o 1 (String.length o - 1)))
+          | _ -> failwith "bad iop") (split_nonempty ',' ops))
+  | 'Q' -> HIterDrop (name_id body)
+  | 'A' -> HScan
+  | 'O' -> HReopen
+  | 'C' | 'W' | 'X' | 'L' | 'T' | 'Z' | 'Y' -> HOther
+  | _ -> failwith ("bad hop " ^ tok)
+
+let show_pairs (m : (n list * n list) list) : string =
+  if m = [] then "-" else String.concat "," (List.map (fun (k, v) -> hex_of_bytes k ^ "=" ^ hex_of_bytes v) m)
+
+let show_hres = function
+  | ROk -> "ok"
+  | RAny -> "*"
+  | RNoSnap -> "nosnap"
+  | RNoIter -> "noiter"
+  | RVal None -> "nf"
+  | RVal (Some v) -> "v" ^ hex_of_bytes v
+  | RPairs m -> show_pairs m
+  | RSnapId i -> "s" ^ string_of_int (int_of_nat i)
+  | RTrace t ->
+      if t = [] then "-"
+      else String.concat "," (List.map (function
+        | OSkip -> "skip" | OInvalid -> "inv"
+        | OAt (k, v) -> hex_of_bytes k ^ "=" ^ hex_of_bytes v) t)
+
+let suite_dbhist (line : string) : string =
+  match split_nonempty ' ' line with
+  | id :: _cfg :: ops ->
+      let res = spec_run spec_init (List.map parse_hop ops) in
+      Printf.sprintf "%s %s" id (String.concat " " (List.map show_hres res))
+  | _ -> failwith "bad dbhist case"
+
+(* ---------- suite: dumpcheck (judging a structural dump of the implementation) ---------- *)
+let between (s : string) (tag : string) : string =
+  (* contents of tag[...] *)
+  let key = tag ^ "[" in
+  let kl = String.length key in
+  let rec find i = if i + kl > String.length s then raise Not_found else if String.sub s i kl = key then i + kl else find (i + 1) in
+  let st = find 0 in
+  let rec close i depth = match s.[i] with
+    | '[' -> close (i + 1) (depth + 1)
+    | ']' -> if depth = 0 then i else close (i + 1) (depth - 1)
+    | _ -> close (i + 1) depth in
+  let en = close st 0 in
+  String.sub s st (en - st)
+
+let parse_entries (s : string) : (ikey * n list) list =
+  if s = "-" || s = "none" then [] else List.map parse_entry (split_nonempty ',' s)
+
+let suite_dumpcheck (line : string) : string =
+  match split_nonempty ' ' line with
+  | [ id; dump ] ->
+      let lv = String.split_on_char '/' (between dump "V") in
+      let unreadable = ref false in
+      let store = ref [] in
+      let version =
+        List.map
+          (fun l ->
+            if l = "-" then []
+            else
+              List.map
+                (fun f ->
+                  match String.split_on_char '@' f with
+                  | [ num; size; range; ents ] ->
+                      let sm, lg = match String.split_on_char '~' range with [ a; b ] -> (a, b) | _ -> failwith "range" in
+                      let es =
+                        if String.length ents >= 10 && String.sub ents 0 10 = "unreadable" then (unreadable := true; [])
+                        else parse_entries ents in
+                      store := (n_of_string num, es) :: !store;
+                      { fm_num = n_of_string num; fm_size = n_of_string size;
+                        fm_small = parse_ikey sm; fm_large = parse_ikey lg }
+                  | _ -> failwith ("bad file " ^ f))
+                (String.split_on_char '+' l))
+          lv
+      in
+      let mem = parse_entries (between dump "mem") in
+      let imms = between dump "imm" in
+      let imm = if imms = "none" then None else Some (parse_entries imms) in
+      let seq = n_of_string (between dump "seq") in
+      let snaps = List.map n_of_string (split_nonempty ',' (between dump "snaps")) in
+      let st = { l_mem = mem; l_imm = imm; l_ver = version; l_store = !store; l_seq = seq;
+                 l_snaps = snaps; l_next = n_of_string (between dump "next"); l_panic = false } in
+      let lookup nn = match List.assoc_opt nn !store with Some es -> es | None -> [] in
+      let shape = shape_ok version lookup && not !unreadable in
+      let all = all_entries st in
+      let views = List.map (fun q -> show_pairs (contents all q)) (seq :: snaps) in
+      (* every key read back through the model of the lookup path agrees with the view *)
+      let getok =
+        List.for_all
+          (fun q ->
+            List.for_all
+              (fun k -> db_get_at st k q = visible all q k)
+              (user_keys all))
+          (seq :: snaps)
+      in
+      Printf.sprintf "%s shape=%d getpath=%d views=%s" id (if shape then 1 else 0) (if getok then 1 else 0)
+        (String.concat ";" views)
+  | _ -> failwith "bad dumpcheck case"
+
 let () =
   let suite = Sys.argv.(1) in
   let f =
@@ -485,13 +617,18 @@ let () =
     | "block" -> suite_block
     | "table" -> suite_table
     | "vfn" -> suite_vfn
+    | "dbhist" -> suite_dbhist
+    | "dumpcheck" -> suite_dumpcheck
     | _ -> failwith ("unknown suite " ^ suite)
   in
   try
     while true do
       let line = input_line stdin in
       if line <> "" then begin
-        (try print_string (f line) with e -> Printf.printf "DRIVER-ERROR %s :: %s" (Printexc.to_string e) line);
+        (try print_string (f line) with e ->
+          let id = try String.sub line 0 (String.index line ' ') with Not_found -> line in
+          Printf.printf "%s DRIVER-ERROR %s :: %s" id (Printexc.to_string e)
+            (if String.length line > 300 then String.sub line 0 300 else line));
         print_newline ()
       end
     done
